@@ -84,6 +84,13 @@ def battery(ctx, res, r):
         res.add_metadata(upd, axis=axis)
         if keys:
             res.del_metadata(keys=[keys[-1]], axis=axis)
+        # first a renaming that fits the current id width (names rotated),
+        # then one that needs a wider array
+        if len(ids) > 1:
+            res.update_ids({i: ids[(k + 1) % len(ids)]
+                            for k, i in enumerate(ids)}, axis=axis,
+                           inplace=True)
+            ids = list(res.ids(axis=axis))
         res.update_ids({i: 'ren_' + str(k) for k, i in enumerate(ids)},
                        axis=axis, inplace=True)
     ids = list(res.ids())
@@ -372,3 +379,44 @@ def setup(ctx):
     from biom.exception import TableException, DisjointIDError
     ctx.TableException = TableException
     ctx.DisjointIDError = DisjointIDError
+
+
+def stress(ctx):
+    """Scale: a one-id / two-id partial renaming on a 300-id axis."""
+    r = ctx.rng('stress')
+    for axis in ('sample', 'observation'):
+        n = 300
+        ids = ['S%03d' % i for i in range(n)]
+        V = np.arange(n * 2, dtype=float).reshape(n, 2) + 1
+        spec = gen.Spec(ids if axis == 'observation' else ['a', 'b'],
+                        ['a', 'b'] if axis == 'observation' else ids,
+                        V if axis == 'observation' else V.T,
+                        [{'k': i} for i in range(n)] if axis == 'observation'
+                        else None,
+                        None if axis == 'observation' else
+                        [{'k': i} for i in range(n)])
+        for recipe in ('as-built', 'touch-sample', 'sort-unsort-samp'):
+            for k in (1, 2):
+                t = gen.apply_layout(ctx.biom, spec, recipe, r)
+                sib = t.sort_order(list(spec.ids(axis)), axis=axis)
+                before, sb = snap.snap(t), snap.snap(sib)
+                pick = r.sample(ids, k)
+                mp = {i: i[:-1] + 'x' for i in pick}     # same width
+                desc = {'scale': 'update_ids %r on %d %s ids (%s)' %
+                        (mp, n, axis, recipe)}
+                res = t.update_ids(dict(mp), axis=axis, strict=False,
+                                   inplace=False)
+                oracles.unchanged(t, before, 'C07/receiver-modified/'
+                                  'update_ids', desc)
+                exp = [mp.get(i, i) for i in ids]
+                if [str(i) for i in res.ids(axis=axis)] != exp:
+                    raise Violation('C07/scale-update_ids-result', '%r' %
+                                    desc)
+                res.update_ids({exp[0]: 'Zzzz'}, axis=axis, strict=False,
+                               inplace=True)
+                oracles.unchanged(t, before, 'C07/result-aliases-receiver/'
+                                  'update_ids', desc)
+                oracles.unchanged(sib, sb, 'C07/result-aliases-sibling/'
+                                  'update_ids', desc, 'sibling table')
+                ctx.count('scale_cases')
+                ctx.case(desc, True)
